@@ -52,6 +52,9 @@ def cases(tier):
             yield {"k": "hist", "dtype": dt, "depth": d, "first": first}
     for dt in ("int32", "float64"):
         yield {"k": "tags", "dtype": dt}
+    for dt, n, cols in (("int8", 700, None), ("uint8", 700, None), ("int8", 600, 30), ("int16", 70000, None), ("uint16", 70000, None),
+                        ("float64", 140000, None), ("float32", 132000, 200), ("int16", 132072, None), ("int64", 3000, None)):
+        yield {"k": "big", "dtype": dt, "n": n, "cols": cols}
 
 
 def horner(raw, coeff, origin):
@@ -283,6 +286,43 @@ def run_hist(case, r):
         s.close()
 
 
+def run_big(case, r):
+    """arrays that are NOT small (more elements than an 8/16-bit type has values, more than 131072 elements, several
+    chunks), holding the extreme values of their type: whole reads, slices near the end, views, commutation"""
+    dt, n = case["dtype"], case["n"]
+    shape = (n,) if case.get("cols") is None else (n // case["cols"], case["cols"])
+    s = S()
+    try:
+        raw0 = values_for(dt, shape)
+        da = s.b.create_data_array("d", "t", data=raw0)
+        for coeff, origin in (([1.5, 0.5, 0.25], 2.0), ([], 3.0), ([0.0, 1.0], None), ([2.0, -1.0], 0)):
+            da.polynom_coefficients = coeff if coeff else None
+            da.expansion_origin = origin
+            exp = horner(raw0, coeff, origin)
+            r.nontrivial += 1
+            if not check_read(r, "big-whole", da[:], raw0, coeff, origin, dt):
+                return
+            last = tuple([slice(shape[0] - 7, shape[0])] + [slice(None)] * (len(shape) - 1))
+            first = tuple([slice(0, 5)] + [slice(None)] * (len(shape) - 1))
+            for nm, sl in (("big-slice-end", last), ("big-slice-start", first),
+                           ("big-strided", tuple([slice(3, None, max(1, shape[0] // 9))] + [slice(None)] * (len(shape) - 1)))):
+                if not check_read(r, nm, da[sl], raw0[sl], coeff, origin, dt):
+                    return
+            view = da.get_slice([1] + [0] * (len(shape) - 1), [shape[0] - 2] + list(shape[1:]), nix.DataSliceMode.Index)
+            if not check_read(r, "big-view", view[:], raw0[1:shape[0] - 1], coeff, origin, dt):
+                return
+            buf = np.empty(shape, dtype=np.float64 if (coeff or origin) else dt)
+            da.read_direct(buf)
+            if not check_read(r, "big-read_direct", buf, raw0, coeff, origin, dt):
+                return
+        raw = s.raw()
+        r.evals += 1
+        if raw.dtype != raw0.dtype or raw.tobytes() != raw0.tobytes():
+            r.viol("C15|raw-changed|big", "stored raw values of a %s array of %d elements changed" % (dt, n), {})
+    finally:
+        s.close()
+
+
 def run_tags(case, r):
     dt = case["dtype"]
     s = S()
@@ -328,5 +368,5 @@ def run_tags(case, r):
 
 def run_case(case):
     r = R()
-    {"product": run_product, "paths": run_paths, "hist": run_hist, "tags": run_tags}[case["k"]](case, r)
+    {"product": run_product, "paths": run_paths, "hist": run_hist, "tags": run_tags, "big": run_big}[case["k"]](case, r)
     return r
